@@ -246,6 +246,42 @@ pub fn programs() -> Vec<(String, Program)> {
         let roots = vec![Src::App(1, vec![Src::Prim("u16"), Src::Prim("i64")]), Src::App(1, vec![Src::Prim("char"), Src::Prim("u64")])];
         out.push(("swapped-params".into(), Program { defs, roots }));
     }
+    // boxed compact fields (`a: Box<Compact<u32>>`): compact AND boxed, in all four field positions
+    // (round-5 seeded change C09-5: the compact marker was dropped on boxed fields)
+    {
+        let bc = |w: &'static str| Src::BoxT(bx(Src::Compact(bx(Src::Prim(w)))));
+        let defs = vec![
+            strukt(&["bc", "Named"], &[], vec![f(Some("a"), bc("u32")), f(Some("b"), Src::Prim("u8")), f(Some("c"), bc("u128"))]),
+            strukt(&["bc", "Unnamed"], &[], vec![f(None, bc("u16")), f(None, Src::BoxT(bx(Src::Prim("u64"))))]),
+            Def { path: p(&["bc", "E"]), params: vec![], docs: vec![],
+                  body: Body::Enum(vec![("A".into(), 0, vec![f(None, bc("u64"))], vec![]),
+                                        ("B".into(), 3, vec![f(Some("x"), bc("u8")), f(Some("y"), Src::Compact(bx(Src::Prim("u32"))))], vec![])]) },
+        ];
+        let roots = vec![Src::App(0, vec![]), Src::App(1, vec![]), Src::App(2, vec![])];
+        out.push(("boxed-compact".into(), Program { defs, roots }));
+    }
+    // generated types reachable ONLY below a generic's type parameter (round-5 seeded change C08-5: the
+    // traversal recorded parameter ids without descending into them): Root -> Option<Middle> -> Leaf,
+    // Vec<(u8, Twig)>;  Root2 -> Wrapper<Middle2> -> Leaf2;  Root3 -> BTreeMap<u8, Middle3> -> Leaf3
+    {
+        let defs = vec![
+            strukt(&["ps", "Leaf"], &[], vec![f(Some("v"), Src::Prim("u8"))]),                       // 0
+            strukt(&["ps", "Twig"], &[], vec![f(None, Src::Prim("u16"))]),                           // 1
+            strukt(&["ps", "Middle"], &[], vec![f(Some("leaf"), Src::App(0, vec![])),
+                                                f(Some("more"), Src::Vec(bx(Src::Tuple(vec![Src::Prim("u8"), Src::App(1, vec![])]))))]), // 2
+            strukt(&["ps", "Root"], &[], vec![f(Some("slot"), Src::Opt(bx(Src::App(2, vec![]))))]), // 3
+            strukt(&["ps", "Leaf2"], &[], vec![f(Some("v"), Src::Prim("u32"))]),                     // 4
+            strukt(&["ps", "Middle2"], &[], vec![f(Some("leaf"), Src::App(4, vec![]))]),            // 5
+            strukt(&["ps", "Wrapper"], &[("T", false)], vec![f(Some("inner"), Src::Param(0))]),     // 6
+            strukt(&["ps", "Root2"], &[], vec![f(Some("slot"), Src::App(6, vec![Src::App(5, vec![])]))]), // 7
+            strukt(&["ps", "Leaf3"], &[], vec![f(Some("v"), Src::Prim("u64"))]),                     // 8
+            strukt(&["ps", "Middle3"], &[], vec![f(Some("leaf"), Src::App(8, vec![]))]),            // 9
+            strukt(&["ps", "Root3"], &[], vec![f(Some("m"), Src::BTreeMap(bx(Src::Prim("u8")), bx(Src::App(9, vec![])))),
+                                               f(Some("r"), Src::Res(bx(Src::App(9, vec![])), bx(Src::Prim("bool"))))]), // 10
+        ];
+        let roots = vec![Src::App(3, vec![]), Src::App(7, vec![]), Src::App(10, vec![])];
+        out.push(("param-subtree".into(), Program { defs, roots }));
+    }
     out
 }
 
